@@ -123,3 +123,506 @@ Proof.
   split; [apply last_rev_first|]. split; [reflexivity|].
   cbn. rewrite rev_length. reflexivity.
 Qed.
+
+(* ================================================================== sort *)
+Section SortLaws.
+  Context {A : Type}.
+  Variable key : A -> value.
+  Definition kle (a b : A) : Prop := vle (key a) (key b).
+
+  Lemma insert_by_perm x l : Permutation (insert_by key x l) (x :: l).
+  Proof.
+    induction l as [|y t IH]; cbn; trivial.
+    destruct (vcmp (key x) (key y)); trivial. rewrite IH. apply perm_swap.
+  Qed.
+
+  Lemma sort_by_perm l : Permutation (sort_by key l) l.
+  Proof.
+    induction l as [|x t IH]; cbn; trivial. rewrite insert_by_perm. constructor. exact IH.
+  Qed.
+
+  Lemma insert_by_sorted x l : wf (key x) -> Forall (fun y => wf (key y)) l ->
+    StronglySorted kle l -> StronglySorted kle (insert_by key x l).
+  Proof.
+    intros Wx. induction l as [|y t IH]; cbn; intros Wl Hs.
+    - repeat constructor.
+    - inversion Wl as [|? ? Wy Wt]; subst. inversion Hs as [|? ? Hs' Hall]; subst.
+      destruct (vcmp (key x) (key y)) eqn:E.
+      + constructor; trivial. constructor.
+        * unfold kle, vle. rewrite E. discriminate.
+        * rewrite Forall_forall in *. intros z Hz. unfold kle, vle in *.
+          pose proof (vcmp_tr (key x) (key y) (key z) Wx Wy (Wt z Hz)) as T. rewrite E in T.
+          rewrite T. apply Hall; trivial.
+      + constructor; trivial. constructor.
+        * unfold kle, vle. rewrite E. discriminate.
+        * rewrite Forall_forall in *. intros z Hz. unfold kle, vle in *.
+          pose proof (vcmp_tr (key x) (key y) (key z) Wx Wy (Wt z Hz)) as T. rewrite E in T.
+          specialize (Hall z Hz). destruct (vcmp (key y) (key z)); cbn in T; congruence.
+      + constructor.
+        * apply IH; trivial.
+        * rewrite Forall_forall in *. intros z Hz.
+          apply (Permutation_in _ (insert_by_perm x t)) in Hz. destruct Hz as [<-|Hz].
+          -- unfold kle, vle. rewrite (vcmp_opp (key x) (key y)), E; trivial. discriminate.
+          -- apply Hall; trivial.
+  Qed.
+
+  Lemma sort_by_sorted l : Forall (fun y => wf (key y)) l -> StronglySorted kle (sort_by key l).
+  Proof.
+    induction l as [|x t IH]; cbn; intros Wl.
+    - constructor.
+    - inversion Wl; subst. apply insert_by_sorted; trivial.
+      + rewrite Forall_forall in *. intros y Hy. apply H2.
+        apply (Permutation_in _ (sort_by_perm t)); trivial.
+      + apply IH; trivial.
+  Qed.
+
+  (* stability: the elements whose key is Equal to k keep their input order *)
+  Definition same_key (k : value) (x : A) : bool := cmp_is_eq (vcmp (key x) k).
+
+  Lemma insert_by_stable k x l : wf k -> wf (key x) -> Forall (fun y => wf (key y)) l ->
+    filter (same_key k) (insert_by key x l) = filter (same_key k) (x :: l).
+  Proof.
+    intros Wk Wx. induction l as [|y t IH]; intros Wl; trivial.
+    inversion Wl as [|? ? Wy Wt]; subst. cbn [insert_by].
+    destruct (vcmp (key x) (key y)) eqn:E; trivial.
+    cbn [filter]. rewrite (IH Wt). cbn [filter].
+    destruct (same_key k x) eqn:Px, (same_key k y) eqn:Py; trivial.
+    exfalso. unfold same_key, cmp_is_eq in Px, Py.
+    destruct (vcmp (key x) k) eqn:Ex; try discriminate.
+    destruct (vcmp (key y) k) eqn:Ey; try discriminate.
+    pose proof (vcmp_tr (key x) k (key y) Wx Wk Wy) as T. rewrite Ex in T. cbn in T.
+    rewrite (vcmp_opp (key y) k Wy Wk), Ey in T. cbn in T. congruence.
+  Qed.
+
+  Lemma sort_by_stable k l : wf k -> Forall (fun y => wf (key y)) l ->
+    filter (same_key k) (sort_by key l) = filter (same_key k) l.
+  Proof.
+    intros Wk. induction l as [|x t IH]; intros Wl; trivial.
+    inversion Wl as [|? ? Wx Wt]; subst. cbn [sort_by fold_right]. fold (sort_by key t).
+    rewrite insert_by_stable; trivial.
+    - cbn [filter]. rewrite (IH Wt). reflexivity.
+    - rewrite Forall_forall in *. intros y Hy. apply Wt.
+      apply (Permutation_in _ (sort_by_perm t)); trivial.
+  Qed.
+End SortLaws.
+
+(* ================================================================== comparability *)
+Definition cmpb (a b : value) : bool := match vpcmp a b with Some _ => true | None => false end.
+
+Lemma vpcmp_map_l m b : vpcmp (VMap m) b = None.
+Proof. destruct b; reflexivity. Qed.
+Lemma vpcmp_map_r a m : vpcmp a (VMap m) = None.
+Proof. destruct a; reflexivity. Qed.
+
+Lemma cmpb_rank a b : wf a -> wf b -> cmpb a b = true -> rank a = rank b.
+Proof.
+  intros Wa Wb H. destruct (N.eq_dec (rank a) (rank b)) as [e|n]; trivial.
+  destruct (diff_rank a b Wa Wb n) as [_ [_ E]]. unfold cmpb in H. rewrite E in H. discriminate.
+Qed.
+
+Lemma cmpb_scalar a b x y : wf a -> wf b -> sk a = Some x -> sk b = Some y ->
+  cmpb a b = N.eqb (srank x) (srank y).
+Proof.
+  intros Wa Wb Ha Hb. unfold cmpb. rewrite (vpcmp_sk a b x y) by assumption.
+  destruct (N.eqb (srank x) (srank y)); reflexivity.
+Qed.
+
+(* partial_cmp is antisymmetric too *)
+Lemma list_pcmp_opp l : Forall (fun x => forall y, wf y -> vpcmp y x = option_map CompOpp (vpcmp x y)) l ->
+  forall l', Forall wf l' -> list_pcmp vpcmp l' l = option_map CompOpp (list_pcmp vpcmp l l').
+Proof.
+  induction 1 as [|x t Hx Ht IH]; intros l' Wl'; destruct l' as [|y t']; cbn; trivial.
+  inversion Wl'; subst. rewrite (Hx y) by assumption.
+  destruct (vpcmp x y) as [[]|]; cbn; auto.
+Qed.
+
+Lemma vpcmp_opp : forall a, wf a -> forall b, wf b -> vpcmp b a = option_map CompOpp (vpcmp a b).
+Proof.
+  assert (S : forall a x, sk a = Some x -> wf a -> forall b, wf b -> vpcmp b a = option_map CompOpp (vpcmp a b)).
+  { intros a x Ha Wa b Wb.
+    destruct (N.eq_dec (rank a) (rank b)) as [e|n].
+    - destruct (sk_same_rank _ _ _ Ha e) as [y Hb].
+      rewrite (vpcmp_sk a b x y), (vpcmp_sk b a y x) by assumption.
+      rewrite (N.eqb_sym (srank y) (srank x)). destruct (N.eqb (srank x) (srank y)); cbn; trivial.
+      rewrite scmp_opp. reflexivity.
+    - destruct (diff_rank a b Wa Wb n) as [_ [_ E1]].
+      destruct (diff_rank b a Wb Wa (not_eq_sym n)) as [_ [_ E2]]. rewrite E1, E2. reflexivity. }
+  apply (value_ind' (fun a => wf a -> forall b, wf b -> vpcmp b a = option_map CompOpp (vpcmp a b))).
+  1-6, 9: intros; eapply S; eauto; reflexivity.
+  - intros l IH Wa b Wb.
+    destruct (N.eq_dec (rank (VArr l)) (rank b)) as [e|n].
+    + destruct (rank_arr_inv _ _ (eq_sym e)) as [l' ->]. apply wf_arr in Wa, Wb. cbn [vpcmp].
+      apply list_pcmp_opp; trivial. rewrite Forall_forall in *. intros x Hx y Wy. apply IH; auto.
+    + destruct (diff_rank _ b Wa Wb n) as [_ [_ E1]].
+      destruct (diff_rank b _ Wb Wa (not_eq_sym n)) as [_ [_ E2]]. rewrite E1, E2. reflexivity.
+  - intros m IH Wa b Wb. rewrite vpcmp_map_l, vpcmp_map_r. reflexivity.
+Qed.
+
+Lemma cmpb_sym a b : wf a -> wf b -> cmpb b a = cmpb a b.
+Proof. intros Wa Wb. unfold cmpb. rewrite (vpcmp_opp a Wa b Wb). destruct (vpcmp a b); reflexivity. Qed.
+
+(* convexity: between two comparable neighbours in `cmp` order nothing incomparable hides *)
+Definition convex (a : value) : Prop :=
+  wf a -> forall b c, wf b -> wf c -> vle a b -> vle b c ->
+  cmpb a b = true -> cmpb b c = true -> cmpb a c = true.
+
+Lemma convex_scalar a x : sk a = Some x -> convex a.
+Proof.
+  intros Ha Wa b c Wb Wc _ _ Cab Cbc.
+  pose proof (cmpb_rank a b Wa Wb Cab) as e1. pose proof (cmpb_rank b c Wb Wc Cbc) as e2.
+  destruct (sk_same_rank _ _ _ Ha e1) as [y Hb]. destruct (sk_same_rank _ _ _ Hb e2) as [z Hc].
+  rewrite (cmpb_scalar a c x z) by assumption.
+  rewrite (cmpb_scalar a b x y) in Cab by assumption. rewrite (cmpb_scalar b c y z) in Cbc by assumption.
+  apply N.eqb_eq in Cab, Cbc. apply N.eqb_eq. congruence.
+Qed.
+
+Lemma convex_list la : Forall convex la -> Forall wf la ->
+  forall lb lc, Forall wf lb -> Forall wf lc ->
+  list_cmp vcmp la lb <> Gt -> list_cmp vcmp lb lc <> Gt ->
+  list_pcmp vpcmp la lb <> None -> list_pcmp vpcmp lb lc <> None ->
+  list_pcmp vpcmp la lc <> None.
+Proof.
+  induction 1 as [|x ta Hx Ht IH]; intros Wla lb lc Wlb Wlc Hab Hbc Cab Cbc.
+  - destruct lc; cbn; discriminate.
+  - destruct lb as [|y tb]; [cbn in Hab; congruence|].
+    destruct lc as [|z tc]; [cbn in Hbc; congruence|].
+    inversion Wla as [|? ? Wx Wta]; inversion Wlb as [|? ? Wy Wtb]; inversion Wlc as [|? ? Wz Wtc]; subst.
+    cbn in Hab, Hbc, Cab, Cbc |- *.
+    destruct (vpcmp x y) as [rxy|] eqn:Pxy; [|congruence].
+    destruct (vpcmp y z) as [ryz|] eqn:Pyz; [|congruence].
+    pose proof (vpcmp_some_vcmp x Wx y Wy _ Pxy) as Vxy.
+    pose proof (vpcmp_some_vcmp y Wy z Wz _ Pyz) as Vyz.
+    rewrite Vxy in Hab. rewrite Vyz in Hbc.
+    assert (Lxy : vle x y) by (unfold vle; rewrite Vxy; destruct rxy; congruence).
+    assert (Lyz : vle y z) by (unfold vle; rewrite Vyz; destruct ryz; congruence).
+    assert (Cxz : cmpb x z = true).
+    { apply (Hx Wx y z); trivial; unfold cmpb; rewrite ?Pxy, ?Pyz; reflexivity. }
+    unfold cmpb in Cxz. destruct (vpcmp x z) as [rxz|] eqn:Pxz; [|discriminate].
+    destruct rxz; try discriminate.
+    pose proof (vpcmp_some_vcmp x Wx z Wz _ Pxz) as Vxz.
+    pose proof (vcmp_tr x y z Wx Wy Wz) as T. rewrite Vxy, Vyz, Vxz in T.
+    destruct rxy, ryz; cbn in T; try discriminate; try congruence.
+    apply (IH Wta tb tc); trivial.
+Qed.
+
+Theorem vpcmp_convex : forall a, convex a.
+Proof.
+  apply value_ind'; intros.
+  1-6, 9: eapply convex_scalar; reflexivity.
+  - intros Wa b c Wb Wc Lab Lbc Cab Cbc.
+    pose proof (cmpb_rank _ b Wa Wb Cab) as e1. pose proof (cmpb_rank b c Wb Wc Cbc) as e2.
+    destruct (rank_arr_inv _ _ (eq_sym e1)) as [lb ->].
+    destruct (rank_arr_inv _ _ (eq_sym e2)) as [lc ->].
+    apply wf_arr in Wa, Wb, Wc. unfold vle in Lab, Lbc. rewrite vcmp_arr in Lab, Lbc.
+    unfold cmpb in *. cbn [vpcmp] in *.
+    destruct (list_pcmp vpcmp l lc) eqn:E; trivial. exfalso.
+    apply (convex_list l H Wa lb lc); trivial.
+    + destruct (list_pcmp vpcmp l lb); congruence.
+    + destruct (list_pcmp vpcmp lb lc); congruence.
+  - intros Wa b c Wb Wc _ _ Cab _. unfold cmpb in Cab. rewrite vpcmp_map_l in Cab. discriminate.
+Qed.
+
+(* `cmp` order is monotone in the kind rank *)
+Lemma vle_rank a b : wf a -> wf b -> vle a b -> (rank a <= rank b)%N.
+Proof.
+  intros Wa Wb L. destruct (N.eq_dec (rank a) (rank b)) as [e|n]; [lia|].
+  destruct (diff_rank a b Wa Wb n) as [E _]. unfold vle in L. rewrite E in L.
+  destruct (N.compare_spec (rank a) (rank b)); try lia. congruence.
+Qed.
+
+(* a value that sorts in front of `none`: bool, number, string, array, map, bytes *)
+Definition regular (v : value) : Prop := (rank v < rank VNone)%N.
+
+Lemma regular_not_none v : regular v -> is_none v = false.
+Proof. destruct v; cbn; trivial. unfold regular. lia. Qed.
+
+Lemma ensure_comparable_cons a b t :
+  ensure_comparable (a :: b :: t) =
+    if negb (is_none a || is_none b) && negb (cmpb a b) then false else ensure_comparable (b :: t).
+Proof. cbn [ensure_comparable]. unfold cmpb. destruct (vpcmp a b); reflexivity. Qed.
+
+(* in a `cmp`-sorted list accepted by ensure_comparable, the head is comparable with every later
+   regular element (if it is regular itself) *)
+Lemma chain_regular t : forall a, Forall wf (a :: t) -> StronglySorted vle (a :: t) ->
+  ensure_comparable (a :: t) = true -> regular a ->
+  Forall (fun z => regular z -> cmpb a z = true) t.
+Proof.
+  induction t as [|b t' IH]; intros a Wl Hs He Ra; constructor.
+  - intros Rb. rewrite ensure_comparable_cons in He.
+    rewrite (regular_not_none a Ra), (regular_not_none b Rb) in He. cbn [negb orb andb] in He.
+    destruct (cmpb a b); trivial; discriminate.
+  - inversion Wl as [|? ? Wa Wt]; subst. inversion Wt as [|? ? Wb Wt']; subst.
+    inversion Hs as [|? ? Hs' Ha]; subst. inversion Hs' as [|? ? Hs'' Hb]; subst.
+    rewrite ensure_comparable_cons in He.
+    apply Forall_forall. intros z Hz Rz.
+    assert (Wz : wf z) by (rewrite Forall_forall in Wt'; auto).
+    assert (Lab : vle a b) by (rewrite Forall_forall in Ha; apply Ha; cbn; auto).
+    assert (Lbz : vle b z) by (rewrite Forall_forall in Hb; auto).
+    assert (Rb : regular b).
+    { unfold regular in *. pose proof (vle_rank b z Wb Wz Lbz). lia. }
+    rewrite (regular_not_none a Ra), (regular_not_none b Rb) in He. cbn [negb orb andb] in He.
+    destruct (cmpb a b) eqn:Cab; try discriminate. cbn [negb] in He.
+    assert (Cbz : cmpb b z = true).
+    { pose proof (IH b Wt Hs' He Rb) as F. rewrite Forall_forall in F. apply F; trivial. }
+    apply (vpcmp_convex a Wa b z); trivial.
+Qed.
+
+Lemma chain_no_none t : forall a, Forall wf (a :: t) -> StronglySorted vle (a :: t) ->
+  ensure_comparable (a :: t) = true -> Forall (fun v => is_none v = false) (a :: t) ->
+  Forall (fun z => cmpb a z = true) t.
+Proof.
+  induction t as [|b t' IH]; intros a Wl Hs He Nn; constructor.
+  - rewrite ensure_comparable_cons in He. inversion Nn as [|? ? Na Nt]; subst. inversion Nt as [|? ? Nb Nt']; subst.
+    rewrite Na, Nb in He. cbn [negb orb andb] in He. destruct (cmpb a b); trivial; discriminate.
+  - inversion Wl as [|? ? Wa Wt]; subst. inversion Wt as [|? ? Wb Wt']; subst.
+    inversion Hs as [|? ? Hs' Ha]; subst. inversion Hs' as [|? ? Hs'' Hb]; subst.
+    inversion Nn as [|? ? Na Nt]; subst. inversion Nt as [|? ? Nb Nt']; subst.
+    rewrite ensure_comparable_cons in He. rewrite Na, Nb in He. cbn [negb orb andb] in He.
+    destruct (cmpb a b) eqn:Cab; try discriminate. cbn [negb] in He.
+    pose proof (IH b Wt Hs' He Nt) as F.
+    apply Forall_forall. intros z Hz.
+    assert (Wz : wf z) by (rewrite Forall_forall in Wt'; auto).
+    apply (vpcmp_convex a Wa b z); trivial.
+    + rewrite Forall_forall in Ha; apply Ha; cbn; auto.
+    + rewrite Forall_forall in Hb; auto.
+    + rewrite Forall_forall in F; auto.
+Qed.
+
+Lemma ensure_comparable_tail a t : ensure_comparable (a :: t) = true -> ensure_comparable t = true.
+Proof.
+  destruct t as [|b t']; trivial. rewrite ensure_comparable_cons.
+  destruct (negb (is_none a || is_none b) && negb (cmpb a b)); congruence.
+Qed.
+
+(* all pairs (at different positions) of a sorted accepted list *)
+Definition reg_cmp (x y : value) : Prop := regular x -> regular y -> cmpb x y = true.
+Definition all_cmp (x y : value) : Prop := cmpb x y = true.
+
+Lemma accepted_pairs l : Forall wf l -> StronglySorted vle l -> ensure_comparable l = true ->
+  ForallOrdPairs reg_cmp l /\
+  (Forall (fun v => is_none v = false) l -> ForallOrdPairs all_cmp l).
+Proof.
+  induction l as [|a t IH]; intros Wl Hs He.
+  - split; intros; constructor.
+  - inversion Wl as [|? ? Wa Wt]; subst. inversion Hs as [|? ? Hs' Ha]; subst.
+    destruct (IH Wt Hs' (ensure_comparable_tail _ _ He)) as [I1 I2]. split.
+    + constructor; trivial. apply Forall_forall. intros z Hz Ra Rz.
+      pose proof (chain_regular t a Wl Hs He Ra) as F. rewrite Forall_forall in F. apply F; trivial.
+    + intros Nn. inversion Nn; subst. constructor; auto.
+      apply (chain_no_none t a Wl Hs He Nn).
+Qed.
+
+Lemma FOP_perm {A} (R : A -> A -> Prop) l l' : (forall x y, R x y -> R y x) ->
+  Permutation l l' -> ForallOrdPairs R l -> ForallOrdPairs R l'.
+Proof.
+  intros Sym P. induction P as [|x l l' P IH|x y l|l l' l'' P1 IH1 P2 IH2]; intros H; trivial.
+  - inversion H; subst. constructor; auto. eapply Permutation_Forall; eauto.
+  - inversion H as [|? ? Hy Ht]; subst. inversion Ht as [|? ? Hx Ht']; subst. inversion Hy; subst.
+    constructor; [constructor; auto|constructor; auto].
+  - auto.
+Qed.
+
+(* ================================================================== sort: the filter *)
+Lemma StronglySorted_map {A} (key : A -> value) l :
+  StronglySorted (kle key) l -> StronglySorted vle (map key l).
+Proof.
+  induction 1 as [|x t Hs IH Hall]; cbn; constructor; trivial.
+  rewrite Forall_forall in *. intros k Hk. apply in_map_iff in Hk as [y [<- Hy]]. apply Hall; trivial.
+Qed.
+
+Lemma path_walk_wf path : forall v k, wf v -> path_walk v path = Some k -> wf k.
+Proof.
+  induction path as [|[n|s] rest IH]; intros v k Wv H; cbn in H.
+  - inversion H; subst; trivial.
+  - destruct v; try discriminate. destruct (nth_error l n) as [x|] eqn:E; try discriminate.
+    apply (IH x); trivial. apply wf_arr in Wv. rewrite Forall_forall in Wv. apply Wv.
+    eapply nth_error_In; eauto.
+  - destruct v; try discriminate. destruct (map_get m (KStr s false)) as [x|] eqn:E; try discriminate.
+    apply (IH x); trivial. apply wf_map in Wv as [_ [_ Vw]]. rewrite Forall_forall in Vw.
+    destruct (map_get_some _ _ _ E) as [k' [Hin _]]. apply (Vw (k', x)); trivial.
+Qed.
+
+Lemma get_from_path_wf v path k : wf v -> get_from_path v path = Some k -> wf k.
+Proof.
+  intros Wv H. destruct v; cbn in H; try discriminate;
+    try (eapply path_walk_wf; eauto; fail).
+  inversion H; subst; trivial.
+Qed.
+
+Lemma decorate_spec path l d : decorate path l = Some d ->
+  map snd d = l /\ Forall (fun kv => get_from_path (snd kv) path = Some (fst kv)) d.
+Proof.
+  revert d; induction l as [|v t IH]; intros d H; cbn in H.
+  - inversion H; subst. split; constructor.
+  - destruct (get_from_path v path) as [k|] eqn:E; try discriminate.
+    destruct (decorate path t) as [d'|]; try discriminate. inversion H; subst.
+    destruct (IH d' eq_refl) as [I1 I2]. split; cbn; [congruence | constructor; trivial].
+Qed.
+
+Definition reg_cmp_wf (x y : value) : Prop := wf x -> wf y -> regular x -> regular y -> cmpb x y = true.
+Definition all_cmp_wf (x y : value) : Prop := wf x -> wf y -> cmpb x y = true.
+
+(* what an accepted sort says about the (decorated) input: [d] pairs each element with its key *)
+Theorem sort_decorated_spec (d : list (value * value)) : Forall (fun kv => wf (fst kv)) d ->
+  let s := sort_by fst d in
+  Permutation s d /\
+  StronglySorted (kle fst) s /\
+  (forall k, wf k -> filter (same_key fst k) s = filter (same_key fst k) d) /\
+  (ensure_comparable (map fst s) = true ->
+     ForallOrdPairs reg_cmp_wf (map fst d) /\
+     (Forall (fun v => is_none v = false) (map fst d) -> ForallOrdPairs all_cmp_wf (map fst d))).
+Proof.
+  intros Wd s.
+  assert (P : Permutation s d) by apply sort_by_perm.
+  assert (S : StronglySorted (kle fst) s) by (apply sort_by_sorted; trivial).
+  split; [trivial|]. split; [trivial|]. split; [intros k Wk; apply sort_by_stable; trivial|].
+  intros He.
+  assert (Wk : Forall wf (map fst s)).
+  { rewrite Forall_map. eapply Permutation_Forall; [apply Permutation_sym; exact P|]. trivial. }
+  destruct (accepted_pairs (map fst s) Wk (StronglySorted_map fst s S) He) as [A1 A2].
+  assert (Pk : Permutation (map fst s) (map fst d)) by (apply Permutation_map; trivial).
+  split.
+  - apply (FOP_perm reg_cmp_wf (map fst s)); trivial.
+    + intros x y H Wy Wx Ry Rx. rewrite cmpb_sym; auto.
+    + revert A1. clear. induction 1 as [|x t Hx Ht IH]; constructor; trivial.
+      rewrite Forall_forall in *. intros y Hy _ _. apply Hx; trivial.
+  - intros Nn. apply (FOP_perm all_cmp_wf (map fst s)); trivial.
+    + intros x y H Wy Wx. rewrite cmpb_sym; auto.
+    + assert (Nn' : Forall (fun v => is_none v = false) (map fst s))
+        by (eapply Permutation_Forall; [apply Permutation_sym; exact Pk|]; trivial).
+      specialize (A2 Nn'). revert A2. clear. induction 1 as [|x t Hx Ht IH]; constructor; trivial.
+      rewrite Forall_forall in *. intros y Hy _ _. apply Hx; trivial.
+Qed.
+
+(* the filter without `attribute`: elements are their own keys *)
+Lemma filter_sort_none l : l <> [] ->
+  filter_sort l None =
+    if ensure_comparable (sort_by (fun v => v) l) then ROk (sort_by (fun v => v) l) else RErr ErrMsg.
+Proof. destruct l; [congruence | reflexivity]. Qed.
+
+Lemma filter_sort_attr l path : l <> [] ->
+  filter_sort l (Some path) =
+    match decorate path l with
+    | None => RErr ErrMsg
+    | Some d => if ensure_comparable (map fst (sort_by fst d)) then ROk (map snd (sort_by fst d)) else RErr ErrMsg
+    end.
+Proof. destruct l; [congruence | reflexivity]. Qed.
+
+Theorem sort_spec l r : Forall wf l -> filter_sort l None = ROk r ->
+  Permutation r l /\ StronglySorted vle r /\
+  (forall k, wf k -> filter (fun x => cmp_is_eq (vcmp x k)) r = filter (fun x => cmp_is_eq (vcmp x k)) l).
+Proof.
+  intros Wl H. destruct l as [|a t]; [inversion H; subst; repeat split; constructor|].
+  rewrite filter_sort_none in H by discriminate.
+  remember (a :: t) as l eqn:El. clear El.
+  destruct (ensure_comparable (sort_by (fun v => v) l)); inversion H; subst.
+  split; [apply sort_by_perm|]. split.
+  - pose proof (sort_by_sorted (fun v : value => v) l Wl) as S.
+    rewrite <- (map_id (sort_by (fun v : value => v) l)). apply (StronglySorted_map (fun v => v)); trivial.
+  - intros k Wk. apply (sort_by_stable (fun v : value => v)); trivial.
+Qed.
+
+Lemma sort_by_id_decorated (l : list value) :
+  map fst (sort_by fst (map (fun v : value => (v, v)) l)) = sort_by (fun v => v) l.
+Proof.
+  induction l as [|x l IH]; trivial.
+  cbn [map sort_by fold_right]. fold (sort_by (@fst value value) (map (fun v : value => (v, v)) l)).
+  fold (sort_by (fun v : value => v) l). rewrite <- IH.
+  generalize (sort_by (@fst value value) (map (fun v : value => (v, v)) l)). intros s.
+  induction s as [|y s IHs]; trivial. cbn. destruct (vcmp x (fst y)); cbn; trivial. rewrite IHs. reflexivity.
+Qed.
+
+Theorem sort_rejects_incomparable l r : Forall wf l -> filter_sort l None = ROk r ->
+  ForallOrdPairs reg_cmp_wf l /\
+  (Forall (fun v => is_none v = false) l -> ForallOrdPairs all_cmp_wf l).
+Proof.
+  intros Wl H. destruct l as [|a t]; [split; intros; constructor|].
+  rewrite filter_sort_none in H by discriminate.
+  remember (a :: t) as l eqn:El. clear El.
+  destruct (ensure_comparable (sort_by (fun v => v) l)) eqn:He; [|discriminate].
+  set (d := map (fun v : value => (v, v)) l).
+  assert (Wd : Forall (fun kv : value * value => wf (fst kv)) d).
+  { unfold d. rewrite Forall_map. cbn. trivial. }
+  assert (E1 : map fst d = l) by (unfold d; rewrite map_map; cbn; rewrite map_id; reflexivity).
+  assert (E2 : map fst (sort_by fst d) = sort_by (fun v => v) l) by apply sort_by_id_decorated.
+  destruct (sort_decorated_spec d Wd) as [_ [_ [_ Q]]]. rewrite E2, E1 in Q. apply Q; trivial.
+Qed.
+
+(* with `attribute`: the same contracts on the keys found by get_from_path *)
+Theorem sort_attr_spec l path r : Forall wf l -> filter_sort l (Some path) = ROk r -> l <> [] ->
+  exists d, decorate path l = Some d /\ map snd d = l /\
+    Forall (fun kv => get_from_path (snd kv) path = Some (fst kv)) d /\
+    r = map snd (sort_by fst d) /\ Permutation r l /\
+    StronglySorted (kle fst) (sort_by fst d) /\
+    (forall k, wf k -> filter (same_key fst k) (sort_by fst d) = filter (same_key fst k) d) /\
+    ForallOrdPairs reg_cmp_wf (map fst d) /\
+    (Forall (fun v => is_none v = false) (map fst d) -> ForallOrdPairs all_cmp_wf (map fst d)).
+Proof.
+  intros Wl H Hne. rewrite filter_sort_attr in H by assumption.
+  destruct (decorate path l) as [d|] eqn:D; [|discriminate].
+  destruct (ensure_comparable (map fst (sort_by fst d))) eqn:He; inversion H; subst.
+  destruct (decorate_spec _ _ _ D) as [D1 D2].
+  assert (Wd : Forall (fun kv : value * value => wf (fst kv)) d).
+  { rewrite Forall_forall in *. intros kv Hkv. apply (get_from_path_wf (snd kv) path); auto.
+    apply Wl. rewrite <- D1. apply in_map; trivial. }
+  destruct (sort_decorated_spec d Wd) as [P [S [St Q]]]. destruct (Q He) as [Q1 Q2].
+  exists d. repeat split; trivial.
+  rewrite <- D1. apply Permutation_map; trivial.
+Qed.
+
+Theorem sort_errors l : l <> [] ->
+  (forall path, decorate path l = None -> filter_sort l (Some path) = RErr ErrMsg) /\
+  (ensure_comparable (sort_by (fun v => v) l) = false -> filter_sort l None = RErr ErrMsg).
+Proof.
+  intros Hne. split.
+  - intros path D. rewrite filter_sort_attr, D by assumption. reflexivity.
+  - intros He. rewrite filter_sort_none, He by assumption. reflexivity.
+Qed.
+
+(* ================================================================== unique *)
+From TeraV Require Import Spec.CollSpec.
+
+Lemma unique_go_spec l : forall seen pre, Forall wf l -> Forall wf seen -> Forall wf pre ->
+  incl seen pre -> (forall p, In p pre -> exists s, In s seen /\ veq s p = true) ->
+  unique_go seen l = first_occurrences veq pre l.
+Proof.
+  destruct veq_equivalence as [Vr [Vs Vt]].
+  induction l as [|v t IH]; intros seen pre Wl Ws Wp Hincl Hrep; cbn; trivial.
+  inversion Wl as [|? ? Wv Wt]; subst.
+  rewrite Forall_forall in Ws, Wp.
+  assert (E : existsb (fun s => cmp_is_eq (vcmp v s)) seen = existsb (fun p => veq p v) pre).
+  { destruct (existsb (fun p => veq p v) pre) eqn:X.
+    - apply existsb_exists in X as [p [Hp Q]]. destruct (Hrep p Hp) as [s [Hs Q2]].
+      apply existsb_exists. exists s. split; trivial.
+      assert (Q3 : veq v s = true) by (apply Vs; auto; apply (Vt s p v); auto).
+      apply vcmp_eq_iff in Q3; auto. rewrite Q3. reflexivity.
+    - destruct (existsb (fun s => cmp_is_eq (vcmp v s)) seen) eqn:Y; trivial.
+      apply existsb_exists in Y as [s [Hs Q]]. 
+      assert (Q1 : vcmp v s = Eq) by (destruct (vcmp v s); cbn in Q; congruence).
+      apply vcmp_eq_iff in Q1; auto.
+      assert (Z : existsb (fun p => veq p v) pre = true).
+      { apply existsb_exists. exists s. split; auto. }
+      congruence. }
+  rewrite E. destruct (existsb (fun p => veq p v) pre) eqn:X.
+  - apply IH; trivial.
+    + apply Forall_forall; trivial.
+    + apply Forall_forall. intros q Hq. apply in_app_or in Hq as [Hq|[Eq|[]]]; subst; auto.
+    + intros s Hs. apply in_or_app. left. auto.
+    + intros q Hq. apply in_app_or in Hq as [Hq|[Eq|[]]]; auto. subst q.
+      apply existsb_exists in X as [p0 [Hp0 Q]]. destruct (Hrep p0 Hp0) as [s [Hs Q2]].
+      exists s. split; trivial. apply (Vt s p0 v); auto.
+  - f_equal. apply IH; trivial.
+    + apply Forall_forall. intros s [Es|Hs]; subst; auto.
+    + apply Forall_forall. intros q Hq. apply in_app_or in Hq as [Hq|[Eq|[]]]; subst; auto.
+    + intros s [Es|Hs]; subst; apply in_or_app; [right; cbn; auto | left; auto].
+    + intros q Hq. apply in_app_or in Hq as [Hq|[Eq|[]]].
+      * destruct (Hrep q Hq) as [s [Hs Q2]]. exists s. split; cbn; auto.
+      * subst q. exists v. split; cbn; auto.
+Qed.
+
+Theorem unique_spec l : Forall wf l -> filter_unique l = first_occurrences veq [] l.
+Proof.
+  intros Wl. apply unique_go_spec; trivial; try constructor.
+  - intros x [].
+  - intros p [].
+Qed.
